@@ -84,6 +84,9 @@ pub fn run(ctx: &Ctx) -> Value {
         if i % 5 == 0 {
             let (fa, fb) = (FixedOffset::east_opt(*rng.pick(&offs)).unwrap(), FixedOffset::east_opt(*rng.pick(&offs)).unwrap());
             tw.emit(ev("tz.since", json!({"a": ndt(a), "b": ndt(b)}), || json!({"r": dur(fa.from_utc_datetime(&a).signed_duration_since(fb.from_utc_datetime(&b)))})));
+            // ... and the order (Ord::cmp, max / min) of the same two values: it follows the instants, whatever the offsets
+            tw.emit(ev("tz.cmp", json!({"a": ndt(a), "b": ndt(b)}), || { let (x, y) = (fa.from_utc_datetime(&a), fb.from_utc_datetime(&b));
+                json!({"c": x.cmp(&y) as i8, "pc": x.partial_cmp(&y).map(|o| o as i8).unwrap_or(9), "max_is_b": std::cmp::max(x, y).naive_utc() == b, "same": x.cmp(&fb.from_utc_datetime(&a)) as i8}) }));
         }
     }
     // plain dates
